@@ -2,7 +2,7 @@
 import importlib, json, os
 from .common import VERIF
 
-CLAIMED = ["c04", "c05", "c07", "c09", "c10", "c11", "c16", "c17", "c18"]
+CLAIMED = ["c02", "c04", "c05", "c07", "c09", "c10", "c11", "c16", "c17", "c18"]
 
 NOT_APPLICABLE = {
     "C06": "file-system confinement: the property is about what metadata/canonicalize/File::open return (FFI, symlinks, OS path semantics); the only solver-sized kernel sits behind percent_decode and format! which Kani cannot symbolically execute within reach (DESIGN §2, §6)",
@@ -13,6 +13,8 @@ NOT_APPLICABLE = {
 PENDING = "check not built yet (work in progress; plan in DESIGN.md §5)"
 
 LEVEL_TEXT = {
+    "C02": ("Bounded model checking of the header table only: every known header name parses to the same variant under EVERY upper/lower-case spelling and prints its canonical name; two arbitrary short names denote the same header iff equal ignoring ASCII case; Headers::get returns the first value, get_all all values in insertion order, remove exactly the same-named fields (<= 3 entries). The request parser itself (start line, query, cookies, X-Forwarded-For, bodies, read segmentation, serialise/parse round trip, tokio twin) is NOT decided: Kani cannot symbolically execute it even on a concrete request (DESIGN §2).",
+            "Trusted: Kani/CBMC; the canonical-name table in kani/src/c02.rs."),
     "C04": ("Bounded model checking of the real get_handler / call_websocket_handler with the wildcard matcher replaced by an uninterpreted predicate (one symbolic truth value per registered pattern): for every possible matcher outcome over 0..2 host sub-apps x 0..2 routes + 0..2 default routes (thorough: 0..3 each), with and without a Host header, the selected handler is the first matching route of the first matching host, else the first matching default route, else none; websocket dispatch likewise, and without a match the stream is dropped and no handler runs.",
             "Trusted: Kani/CBMC; the stub contract (the matcher is a pure predicate of pattern and text — C05 decides what it computes); allocator-model diagnostics of Kani are not verdicts (DESIGN §3.1)."),
     "C05": ("Symbolic execution of wildcard_match's MIR (dumped from the current tree) with pattern/text as sequences of symbolic Unicode scalar values; for every pattern length <= 7 and text length <= 10 (thorough: 12 x 18) z3 shows that the function cannot panic and returns exactly what the glob recurrence ('*' = any sequence, every other character only itself) prescribes. The executor is validated on every run against the natively compiled function on the repository's own test pairs plus 200 seeded pairs incl. 2- and 4-byte characters, and one exported query is cross-checked with cvc5.",
